@@ -5,6 +5,7 @@ import Exetera.Lemmas.SpansApply
 import Exetera.Lemmas.SpansScan
 import Exetera.Lemmas.SpansMerge
 import Exetera.Lemmas.SpansEntry
+import Exetera.Lemmas.SpansIndexed
 /-!
   C08 — spans are the maximal runs of equal adjacent rows; reductions respect them.
   Every theorem is about the definitions of `Model/Spans.lean` that the driver runs, for all inputs.
@@ -188,11 +189,20 @@ theorem entrypoints_agree (a b : List Int) (hl : a.length = b.length) :
 theorem column_spans_eq_spec (c : Column) (hv : c.Valid) : columnSpans .repaired c = .ok (spans neq c.rows) :=
   columnSpans_eq_spec c hv
 
+/- FULL STATEMENT (not provable: refuted by `Witness.C08.nc08d_third_field_ignored`, open finding NC08d):
+
+   theorem session_get_spans_fields_eq_spec (c0 : Column) (cs : List Column) (hv : ∀ c ∈ c0 :: cs, c.Valid)
+       (hl : ∀ c ∈ cs, c.rows.length = c0.rows.length) :
+       sessionGetSpansFields .repaired (c0 :: cs) = .ok (spans neq (joint rows of c0 :: cs))
+
+   `Session.get_spans(fields=…)` indexes `fields[0]` and `fields[1]` only: one entry raises IndexError, entries beyond the
+   second are ignored. What holds is the statement for exactly two entries: -/
+
 /-- `Session.get_spans(fields=(f0, f1))` for Fields of any two kinds (numeric, fixed string, indexed string) -/
-theorem session_get_spans_fields_eq_spec (c0 c1 : Column) (h0 : c0.Valid) (h1 : c1.Valid)
-    (hl : c0.rows.length = c1.rows.length) :
-    sessionGetSpansFields .repaired [c0, c1] = .ok (spans neq (c0.rows.zip c1.rows)) :=
-  sessionGetSpansFields_eq_spec c0 c1 h0 h1 hl
+theorem session_get_spans_fields_eq_spec_partial (cols : List Column) (c0 c1 : Column) (h2 : cols = [c0, c1])
+    (h0 : c0.Valid) (h1 : c1.Valid) (hl : c0.rows.length = c1.rows.length) :
+    sessionGetSpansFields .repaired cols = .ok (spans neq (c0.rows.zip c1.rows)) := by
+  subst h2; exact sessionGetSpansFields_eq_spec c0 c1 h0 h1 hl
 
 example : sessionGetSpansFields .repaired [.fixed [[97], [97, 32], [97, 32]], .numeric [1, 1, 2]] = .ok [0, 1, 2, 3] := rfl
 
@@ -296,6 +306,74 @@ theorem apply_spans_index_of_max_eq (sp : List Nat) (src : List Int) (h : Wellfo
 
 example : applySpansIndexOfMin [0, 2, 5] [3, 1, 4, 1, 1] = .ok [1, 3] ∧
     applySpansIndexOfMax [0, 2, 5] [3, 3, 4, 5, 5] = .ok [0, 3] := ⟨rfl, rfl⟩
+
+
+/-! ### indexed string columns: min / max are lexicographic, ties go to the first row (needs fix D18) -/
+
+/-- `apply_spans_index_of_min_indexed` (with fix D18): for a well-formed index and well-formed spans the kernel returns
+    `.ok` (no out-of-bounds read of `src_indices` / `src_values`, all loops terminate), one entry per span, and the entry
+    of span `[a, b)` is the row number of the FIRST row of the span that is lexicographically minimal (bytewise, a proper
+    prefix is smaller). -/
+theorem apply_spans_index_of_min_indexed_eq (sp indices values : List Nat) (hv : ValidIndex indices values)
+    (h : Wellformed sp (indices.length - 1)) :
+    ∃ r, applySpansIndexOfMinIndexed .repaired sp indices values = .ok r ∧ r.length = (pairs sp).length ∧
+      ∀ pv ∈ (pairs sp).zip r, ∃ k : Nat, pv.2 = (k : Int) ∧ IsFirstMinIn (decodeRows indices values) pv.1.1 pv.1.2 k := by
+  unfold applySpansIndexOfMinIndexed forSpans
+  simp only [wellformed_ne_nil h, Bool.false_eq_true, if_false]
+  apply forPairs_rel _ (fun p v => ∃ k : Nat, v = (k : Int) ∧ IsFirstMinIn (decodeRows indices values) p.1 p.2 k)
+  intro p hp
+  have hw := pairs_wellformed h p hp
+  exact spanIndexOfMinIndexed_spec indices values hv p.1 p.2 hw.1 (by omega)
+
+theorem apply_spans_index_of_max_indexed_eq (sp indices values : List Nat) (hv : ValidIndex indices values)
+    (h : Wellformed sp (indices.length - 1)) :
+    ∃ r, applySpansIndexOfMaxIndexed sp indices values = .ok r ∧ r.length = (pairs sp).length ∧
+      ∀ pv ∈ (pairs sp).zip r, ∃ k : Nat, pv.2 = (k : Int) ∧ IsFirstMaxIn (decodeRows indices values) pv.1.1 pv.1.2 k := by
+  unfold applySpansIndexOfMaxIndexed forSpans
+  simp only [wellformed_ne_nil h, Bool.false_eq_true, if_false]
+  apply forPairs_rel _ (fun p v => ∃ k : Nat, v = (k : Int) ∧ IsFirstMaxIn (decodeRows indices values) p.1 p.2 k)
+  intro p hp
+  have hw := pairs_wellformed h p hp
+  exact spanIndexOfMaxIndexed_spec indices values hv p.1 p.2 hw.1 (by omega)
+
+-- rows "b", "ab", "a", "a" (D18's witness plus a tie): min is row 2 (the first "a"), max is row 0
+example : applySpansIndexOfMinIndexed .repaired [0, 4] [0, 1, 3, 4, 5] [98, 97, 98, 97, 97] = .ok [2] ∧
+    applySpansIndexOfMaxIndexed [0, 4] [0, 1, 3, 4, 5] [98, 97, 98, 97, 97] = .ok [0] := ⟨rfl, rfl⟩
+example : ValidIndex [0, 1, 3, 4, 5] [98, 97, 98, 97, 97] ∧ Wellformed [0, 4] ([0, 1, 3, 4, 5].length - 1) := by
+  refine ⟨⟨by decide, ?_⟩, by decide, rfl, rfl⟩
+  intro x hx; simp at hx; rcases hx with rfl | rfl | rfl | rfl | rfl <;> decide
+
+/-! ### the Session / Field wrappers add nothing on well-formed spans -/
+
+theorem hasEmptySpan_false_of_pairwise : ∀ (sp : List Nat), sp.Pairwise (· < ·) → hasEmptySpan sp = false
+  | [], _ => rfl
+  | [_], _ => rfl
+  | a :: b :: rest, h => by
+    rw [List.pairwise_cons] at h
+    have := h.1 b (by simp)
+    have hne : (a == b) = false := by simp; omega
+    simp [hasEmptySpan, hne, hasEmptySpan_false_of_pairwise (b :: rest) h.2]
+
+/-- `Session.apply_spans_*(spans, target)`: the length check `len(target) == spans[-1]` passes, the kernel's result is returned -/
+theorem session_apply_spans_transparent (kernel : List Nat → List Int → Except Err (List Int)) (sp : List Nat)
+    (src : List Int) (h : Wellformed sp src.length) : sessionApplySpansSrc kernel sp src = kernel sp src := by
+  unfold sessionApplySpansSrc
+  simp [h.2.2]
+
+/-- `Field.apply_spans_*(spans)`: the "spans with empty entries" guard does not fire, the kernel's result is returned -/
+theorem field_apply_spans_transparent (kernel : List Nat → List Int → Except Err (List Int)) (sp : List Nat)
+    (src : List Int) (n : Nat) (h : Wellformed sp n) : fieldApplySpans kernel sp src = kernel sp src := by
+  unfold fieldApplySpans
+  simp [hasEmptySpan_false_of_pairwise sp h.1]
+
+theorem field_apply_spans_indexed_transparent (kernel : List Nat → Except Err (List Int)) (sp : List Nat)
+    (n : Nat) (h : Wellformed sp n) : fieldApplySpansIndexed kernel sp = kernel sp := by
+  unfold fieldApplySpansIndexed
+  simp [hasEmptySpan_false_of_pairwise sp h.1]
+
+example : sessionApplySpansSrc applySpansMin [0, 2, 3] [4, 1, 7] = .ok [1, 7] ∧
+    sessionApplySpansSrc applySpansMin [0, 2] [4, 1, 7] = .error (.valueError "'target' length must equal spans[-1]") :=
+  ⟨rfl, rfl⟩
 
 /-- hypotheses of the reduction theorems are met by the spans the library itself computes -/
 example (xs : List Int) : Wellformed (getSpansForField neq xs) xs.length := spans_wellformed neq xs
